@@ -657,6 +657,7 @@ func cmdDeterminism(args []string) int {
 	type key struct{ procs, rep int }
 	var mu sync.Mutex
 	finger := map[key]string{}
+	runlogs := map[key][]string{}
 	var wg sync.WaitGroup
 	sem := make(chan struct{}, 8)
 	for _, procs := range []int{1, 4, 16} {
@@ -669,27 +670,41 @@ func cmdDeterminism(args []string) int {
 				out := filepath.Join(b.scratch, fmt.Sprintf("det-%d-%d.json", procs, r))
 				cmd := workerCmd(b, pc, "-prop", id, "-tier", "quick", "-seed", "7", "-worker", "0", "-workers", "1",
 					"-runs", fmt.Sprint(*runs), "-budget", "0", "-out", out, "-replaydir", b.scratch)
-				cmd.Env = append(cmd.Env, fmt.Sprintf("GOMAXPROCS=%d", procs))
+				cmd.Env = append(cmd.Env, fmt.Sprintf("GOMAXPROCS=%d", procs), "VERIF_RUNLOG="+out+".runlog")
 				_, _ = cmd.CombinedOutput()
 				raw, _ := os.ReadFile(out)
 				var s summary
 				_ = json.Unmarshal(raw, &s)
 				fp := fmt.Sprintf("ev=%d nt=%v sh=%v probes=%v steps=%d sim=%d viol=%d infra=%q", s.Evaluations, s.Nontrivial, s.SchedHashes, s.Probes, s.Steps, s.SimMs, len(s.Violations), s.Infra)
+				rl, _ := os.ReadFile(out + ".runlog")
 				mu.Lock()
+				runlogs[key{procs, r}] = strings.Split(string(rl), "\n")
 				finger[key{procs, r}] = fp
 				mu.Unlock()
 			}(procs, r)
 		}
 	}
 	wg.Wait()
+	divergedRun := -1
 	var first string
+	var firstKey key
 	okAll := true
 	for k, fp := range finger {
 		if first == "" {
-			first = fp
+			first, firstKey = fp, k
 		}
 		if fp != first {
 			okAll = false
+			a, b := runlogs[firstKey], runlogs[k]
+			for i := 0; i < len(a) && i < len(b); i++ {
+				if a[i] != b[i] {
+					fmt.Printf("first differing run (run, schedule hash, steps, non-trivial): ref %q got %q\n", a[i], b[i])
+					if divergedRun < 0 {
+						_, _ = fmt.Sscan(a[i], &divergedRun)
+					}
+					break
+				}
+			}
 			i := 0
 			for i < len(fp) && i < len(first) && fp[i] == first[i] {
 				i++
@@ -705,6 +720,50 @@ func cmdDeterminism(args []string) int {
 				return len(s)
 			}
 			fmt.Printf("DIVERGENCE at GOMAXPROCS=%d rep=%d\n  ref: ...%s\n  got: ...%s\n", k.procs, k.rep, first[lo:hi(first)], fp[lo:hi(fp)])
+		}
+	}
+	if !okAll && divergedRun >= 0 {
+		// where do two executions of that run part ways? (step logs of repeated executions, first difference)
+		var ref []string
+		for try := 0; try < 24; try++ {
+			lf := filepath.Join(b.scratch, fmt.Sprintf("steplog-%d", try))
+			cmd := workerCmd(b, pc, "-prop", id, "-tier", "quick", "-seed", "7", "-worker", "0", "-workers", "1",
+				"-runs", fmt.Sprint(divergedRun+1), "-budget", "0", "-out", lf+".json", "-replaydir", b.scratch)
+			cmd.Env = append(cmd.Env, fmt.Sprintf("GOMAXPROCS=%d", []int{1, 4, 16}[try%3]), "VERIF_STEPLOG="+lf, "VERIF_STEPRUN="+fmt.Sprint(divergedRun))
+			_, _ = cmd.CombinedOutput()
+			raw, _ := os.ReadFile(lf)
+			lines := strings.Split(string(raw), "\n")
+			if ref == nil {
+				ref = lines
+				continue
+			}
+			d := 0
+			for d < len(ref) && d < len(lines) && ref[d] == lines[d] {
+				d++
+			}
+			if d == len(ref) && d == len(lines) {
+				continue
+			}
+			fmt.Printf("run %d: step logs part ways at line %d\n", divergedRun, d)
+			lo := d - 12
+			if lo < 0 {
+				lo = 0
+			}
+			for i := lo; i < d+6; i++ {
+				l, r := "", ""
+				if i < len(ref) {
+					l = ref[i]
+				}
+				if i < len(lines) {
+					r = lines[i]
+				}
+				mark := "  "
+				if l != r {
+					mark = "!="
+				}
+				fmt.Printf("%s %s\n   %s\n", mark, l, r)
+			}
+			break
 		}
 	}
 	if !okAll {
